@@ -81,6 +81,9 @@ class Geometry:
         if pixel_horz_size and not (0.0 <= pixel_horz_size <= 1000.0):
             raise ValueError("'pixel_horz_size' must be between 0.0 and 1000.0.")
 
+        if pixel_scale is not None and not (0.0 <= pixel_scale <= 1000.0):
+            raise ValueError("'pixel_scale' must be between 0.0 and 1000.0.")
+
         self._row = row
         self._col = col
         self._total_thickness = total_thickness
